@@ -1912,6 +1912,7 @@ impl Family for C13Family {
             bufreader: if r.chance(1, 3) { Some(*r.pick(&[1usize, 7, 64, 8192])) } else { None },
             late_end: if r.chance(1, 3) { 1 + r.below(2) as u8 } else { 0 },
             coop: r.chance(1, 5),
+            spurious: r.chance(1, 4),
         };
         (serde_json::to_value(plan).expect("plan"), seed)
     }
